@@ -104,6 +104,14 @@ func (op *ROp) Exec(db *gorm.DB) (res Result) {
 	case "first_or_create":
 		var u fam.User
 		return done(db.Where(fam.User{Name: fmt.Sprintf("foc%d", op.Int)}).Attrs(fam.User{Age: 6}).FirstOrCreate(&u), &u)
+	case "foc_found":
+		// the record exists: AfterFind runs, nothing is written
+		var u fam.User
+		return done(db.Where(fam.User{Name: fmt.Sprintf("fu%d", op.Target)}).Attrs(fam.User{Age: 6}).FirstOrCreate(&u), &u)
+	case "foc_assign":
+		// the record exists and Assign makes FirstOrCreate update it
+		var u fam.User
+		return done(db.Where(fam.User{Name: fmt.Sprintf("fu%d", op.Target)}).Assign(fam.User{Age: 60 + op.Int%30}).FirstOrCreate(&u), &u)
 	case "raw_scan":
 		var us []fam.User
 		return done(db.Raw("SELECT * FROM users WHERE age > ?", op.Int).Scan(&us), &us)
